@@ -101,6 +101,7 @@ class World {
   int base_blocks = 0;
 
   // ---- bus lifecycle
+  bool bus_side_connected(int ci) const;   // white-box: the bus still holds a live connection for this client
   void start_bus(const std::string &config_xml, int uniq_major = 0, int uniq_minor = 0);
   bool bus_running() const { return ctx != nullptr; }
   // close all clients, quiesce, shut the bus down; checks block/fd baselines (fails with leak:* classes)
